@@ -605,7 +605,8 @@ def coverage(tier, seed, agg):
                 "'jit' shards re-executed on the compiled kernel with bounds checking",
     }
     for k in ("jit_frames", "jit_distinct_arrays", "outside_adds_not_credited", "read_forks",
-              "removals_to_empty_frame", "array_folded_into_clusters", "resets", "rejected_adds"):
+              "removals_to_empty_frame", "array_folded_into_clusters", "resets", "rejected_adds",
+              "cpu_s_deep", "cpu_s_wide", "cpu_s_jit"):
         cov[k] = c.get(k, 0)
     return cov
 
